@@ -68,9 +68,16 @@ def generate(rng, tier):
         cases.append({"kind": "keys", "lines": lines, "offered": rng.randrange(len(ks))})
     for c in cases:
         c["file"] = render(c["lines"], ks, rng).encode().hex()
+    # very long lines (beyond bufio.Scanner's 64 KiB token limit) in front of, and as, a listed key
+    for n in (65535, 65536, 70000, 200000):
+        typ, b64 = ks[0][1].split(" ")[:2]
+        cases.append({"kind": "keys", "lines": [1, 3], "offered": 0, "file": ("# " + "x" * n + "\n%s %s\n" % (typ, b64)).encode().hex()})
+        cases.append({"kind": "keys", "lines": [3, 4], "offered": rng.choice([0, 1]),
+                      "file": ("environment=\"V=%s\" %s %s\n%s\n" % ("y" * n, typ, b64, ks[1][1])).encode().hex()})
     users = ["DTAIL-HEALTH", "DTAIL-SCHEDULE", "DTAIL-CONTINUOUS", "alice", "dtail-health", ""]
     names = ["hourly", "nightly", "DTAIL-HEALTH", "", "x"]
-    ips = ["10.0.0.7", "10.0.0.8", "127.0.0.1", "192.168.1.1"]
+    # (addresses that are textual prefixes of one another included)
+    ips = ["10.0.0.7", "10.0.0.8", "127.0.0.1", "192.168.1.1", "10.0.0.70", "10.0.0.77", "127.0.0.11", "110.0.0.7"]
     for i in range(300 if tier == "quick" else 6000):
         mk = lambda: [{"Name": rng.choice(names), "AllowFrom": [rng.choice(ips) for _ in range(rng.choice([0, 1, 2]))]} for _ in range(rng.choice([0, 1, 2, 3]))]
         cases.append({"kind": "password", "user": rng.choice(users), "password": rng.choice(names + ["DTAIL-SCHEDULE", "wrong"]),
